@@ -130,7 +130,25 @@ def worker(shard):
             big = mido.Message('sysex', data=tuple((i * 3) & 0x7F
                                                    for i in range(5000)))
             check_list(mido, d, [big, alpha[0], big], acc, ['5000', 0, '5000'])
-            # generator input
+            # many messages: binary sizes at and around block boundaries
+            for total in (4095, 4096, 4097, 8191, 8192, 8200, 12288, 65536,
+                          70001):
+                for unit in (12, 252):
+                    msgs, remaining, j = [], total, 0
+                    while remaining >= 2 * unit:
+                        msgs.append(mido.Message('sysex', data=tuple(
+                            (j + i) & 0x7F for i in range(unit - 2))))
+                        remaining -= unit
+                        j += 1
+                    msgs.append(mido.Message('sysex',
+                                             data=(j & 0x7F,) * (remaining - 2)))
+                    check_list(mido, d, msgs, acc,
+                               [f'{len(msgs)} messages, {total} bytes'])
+            for n in (6, 10, 100, 1000):
+                same = mido.Message('sysex', data=(1, 2, 3))
+                check_list(mido, d, [same] * n, acc, [f'{n} x the same'])
+                check_list(mido, d, [mido.Message('sysex', data=(i & 0x7F,) * (i % 9))
+                                     for i in range(n)], acc, [f'{n} varied'])
             for bad in BAD_TEXT:
                 fn = os.path.join(d, 'bad.syx')
                 with open(fn, 'w') as f:
@@ -205,10 +223,58 @@ def worker(shard):
                                               f'{text!r} read as {got!r}', case)
             acc.sample({'token_layouts_of': ['F0F7', 'F001F7', 'F01234F7']},
                        cap=1)
+        elif kind == 'wrapped':
+            # hex dumps wrapped over lines, k bytes per line, of payloads
+            # with repeated content (identical neighbouring lines)
+            patterns = {'zeros': lambda i: 0, 'period16': lambda i: i % 16,
+                        'period2': lambda i: (1, 1, 2)[i % 3],
+                        'varied': lambda i: (i * 7) & 0x7F}
+            for name, fn_ in patterns.items():
+                for n in (3, 5, 31, 63, 64, 300, 5000):
+                    body = [0xF0] + [fn_(i) for i in range(n)] + [0xF7]
+                    stream = body + body + [0xF0, 0xF7] + body
+                    for per_line in (1, 2, 3, 8, 16, 32):
+                        for style in ('stream', 'per-message'):
+                            acc.evals += 1
+                            acc.nontrivial += 1
+                            if style == 'stream':
+                                lines = [stream[i:i + per_line] for i in
+                                         range(0, len(stream), per_line)]
+                            else:
+                                lines = []
+                                for msg in (body, body, [0xF0, 0xF7], body):
+                                    lines += [msg[i:i + per_line] for i in
+                                              range(0, len(msg), per_line)]
+                            text = '\n'.join(' '.join('%02X' % b for b in ln)
+                                             for ln in lines) + '\n'
+                            p = os.path.join(d, 'wrap.syx')
+                            with open(p, 'w') as f:
+                                f.write(text)
+                            want = [tuple(body[1:-1])] * 2 + [()] + [
+                                tuple(body[1:-1])]
+                            case = {'kind': 'wrapped', 'pattern': name, 'n': n,
+                                    'per_line': per_line, 'style': style}
+                            try:
+                                got = [sx(m) for m in mido.read_syx_file(p)]
+                            except Exception as e:
+                                acc.violation(
+                                    f'wrapped/raises/{type(e).__name__}',
+                                    f'{case}: {e!r}', case)
+                                continue
+                            if got != want:
+                                acc.violation(
+                                    'wrapped/content',
+                                    f'{case}: read {len(got)} messages with '
+                                    f'{[len(g) for g in got]} data bytes, '
+                                    f'expected 4 with {[len(w) for w in want]}',
+                                    case)
+            acc.sample({'wrapped_hex_dumps': list(patterns),
+                        'bytes_per_line': [1, 2, 3, 8, 16, 32]}, cap=1)
         elif kind == 'layout':
             payloads = ([0xF0, 0xF7], [0xF0, 0x01, 0xF7],
                         [0xF0, 0x7F, 0x00, 0xF7], [0xF0, 0xF7, 0xF0, 0x05, 0xF7],
-                        [0xF0, 1, 2, 3, 0xF7])
+                        [0xF0, 1, 2, 3, 0xF7], [0xF0, 1, 1, 2, 0xF7],
+                        [0xF0, 0xF7, 0xF0, 0xF7], [0xF0, 0, 0, 0xF7])
             pl = payloads[shard[1]]
             for seps in itertools.product(SEPS, repeat=len(pl) - 1):
                 for lead, trail, lower in (('', '\n', False), (' ', '', True),
@@ -231,7 +297,9 @@ def run():
     n = 4 if thorough else 3
     shards = [('misc',), ('tokens',)]
     shards += [('lists', i, n) for i in range(len(alphabet(mido)))]
-    shards += [('layout', i) for i in range(5 if thorough else 4)]
+    shards += [('layout', i) for i in range(8 if thorough else 4)]
+    shards += [('layout', i) for i in (() if thorough else (5, 6, 7))]
+    shards.append(('wrapped',))
     run_shards(worker, shards, rep)
     rep.coverage['exhaustive'] = True
     rep.coverage['rule'] = (
@@ -240,7 +308,10 @@ def run():
         f'empty list, written and read back in binary and plain-text format; '
         f'plain-text layouts: every assignment of a separator from '
         f'{[repr(s) for s in SEPS]} to each gap of 4-5 small files, with '
-        f'leading/trailing whitespace and lower-case hex; invalid text '
+        f'leading/trailing whitespace and lower-case hex; hex dumps wrapped '
+        f'at 1/2/3/8/16/32 bytes per line of payloads with repeated content '
+        f'(3..5000 bytes); lists of 6..1000 equal or varied messages and '
+        f'binary sizes around 4096/8192/65536 bytes; invalid text '
         f'{list(BAD_TEXT)} must raise ValueError; every placement of whitespace between the hex digits of 4 small files (odd-length tokens must raise, all-two-digit layouts must parse). Non-trivial = list mixes '
         f'sysex and other messages, or any layout/invalid-text case')
     rep.assumptions += ['files are written to a tmpfs scratch directory',
@@ -253,6 +324,10 @@ def check_case(case):
     acc = Acc()
     d = common.scratch_dir()
     try:
+        if case['kind'] == 'wrapped' or (case['kind'] == 'list' and any(
+                not isinstance(i, int) for i in case['msgs'])):
+            w = worker(('wrapped',) if case['kind'] == 'wrapped' else ('misc',))
+            return [(k, v[0][1]) for k, v in w.viol.items()]
         if case['kind'] == 'list':
             alpha = alphabet(mido)
             msgs = [alpha[i] for i in case['msgs'] if isinstance(i, int)]
